@@ -31,7 +31,7 @@ import common
 LEVEL = 'proof'
 LEANCHECKER = True
 RULE = ("a case is (rows, cols, factor, header kind in {cdelt, cd, mixed, both, cdrot (full rotated CD matrix), pc, crota}, input in {hdu, file}, image pattern "
-        "in {random, affine, nodal}); the real compress and expand are run on it; non-trivial = factor >= 2 (some "
+        "in {random, affine, nodal, sparse (zero nodes next to 3e9 nodes, every factor 1..64)}); the real compress and expand are run on it; non-trivial = factor >= 2 (some "
         "pixel is interpolated and the residual bookkeeping is exercised); distinct by (rows, cols, factor, header "
         "kind, input); malformed-stream cases are counted separately in the histogram and are never non-trivial")
 ASSUMPTIONS = [
@@ -71,6 +71,16 @@ SCALE = (-0.0125, 0.03125)
 
 def make_image(rows, cols, f, pattern, seed):
     rng = np.random.RandomState(seed % (2 ** 31))
+    if pattern == 'sparse':
+        # a count map: zeros and a few small counts, with 3e9 (exact in float32) on every other decimation node, so
+        # that every zero node has a bright predecessor node along rows and along columns: any leakage eps * 3e9
+        # from a neighbouring node is visible exactly (family: k*f*(1/f) != k)
+        r, c = np.mgrid[0:rows, 0:cols]
+        img = rng.randint(0, 4, (rows, cols)).astype(np.float64)
+        node = (r % f == 0) & (c % f == 0)
+        bright = ((r // f + c // f) % 2 == 0)
+        img = np.where(node, np.where(bright, 3e9, 0.0), img)
+        return np.array(img, dtype=np.float32)
     if pattern == 'affine':
         a, b, g = rng.randint(-50, 50, 3)
         r, c = np.mgrid[0:rows, 0:cols]
@@ -327,13 +337,19 @@ def run_impl(ctx, case, want_file_checks=True, fixed_tag=None):
     run_impl.n = getattr(run_impl, 'n', 0) + 1
     tag = fixed_tag or f"{run_impl.n}_{rows}_{cols}_{f}_{kind}_{pattern}"
     o.files = []
-    cpath = os.path.join(tmp, f"c_{tag}.fits")
+
+    def path(prefix):
+        if case.get('fname'):          # file NAME under test: <prefix><fname>, optionally relative to the cwd
+            p = os.path.join(tmp, prefix + case['fname'])
+            return os.path.relpath(p, os.getcwd()) if case.get('relative') else p
+        return os.path.join(tmp, f"{prefix}{tag}.fits")
+    cpath = path('c_')
     try:
         o.stage = 'compress'
         if io == 'file':
-            ipath = os.path.join(tmp, f"i_{tag}.fits")
+            ipath = path('i_')
             hl.writeto(ipath, overwrite=True)
-            epath = os.path.join(tmp, f"e_{tag}.fits")
+            epath = path('e_')
             res = fits_tools.compress(ipath, f, cpath)
             if res is None:
                 o.error = 'none'
@@ -362,7 +378,7 @@ def run_impl(ctx, case, want_file_checks=True, fixed_tag=None):
                 return o
             o.ehdr, o.edata = res[0].header.copy(), np.array(res[0].data)
         o.cpath = cpath if (io == 'file' or want_file_checks) else None
-        o.files = [p for p in (cpath, os.path.join(tmp, f"i_{tag}.fits"), os.path.join(tmp, f"e_{tag}.fits"))]
+        o.files = [cpath, path('i_'), path('e_')]
     except Exception as e:  # noqa
         o.error = f"{type(e).__name__}: {e}"
     return o
@@ -372,6 +388,8 @@ def sig(what, case, **kw):
     rows, cols, f = case['rows'], case['cols'], case['f']
     s = dict(site='compress/expand', what=what, residual_rows=rows % f != 0, residual_cols=cols % f != 0,
              factor_gt_size=f > min(rows, cols))
+    if case.get('fname'):
+        s['file_name'] = 'non-ascii' if any(ord(ch) > 127 for ch in case['fname']) else 'ascii'
     if case.get('history'):
         s['history'] = True        # the case was preceded, in this process, by the calls listed in case['history']
     s.update(kw)
@@ -707,6 +725,82 @@ def run_sequence(ctx, seq):
         done.append(case)
 
 
+FILE_NAMES = [
+    ('mosa\u00efque_1904\u221266_\u00f1.fits', False),        # non-ASCII characters
+    ('with space and (parens).fits', False),
+    ('percent%s_%d_{0}_{name}_brace.fits', False),            # format characters
+    ('long_' + 'x' * 180 + '.fits', False),
+    ('relative-path.fits', True),
+    ('UPPER.FITS', False),
+    ('no_extension', True),
+]
+
+
+def file_names(ctx):
+    """the file NAME as a dimension, for str input: compress(name, f, name), expand(name, name), load_image_band,
+    _load_aux_image and the SR6 command line; shapes and factors are ordinary"""
+    rng = ctx.rng
+    cases = []
+    for fname, rel in FILE_NAMES:
+        rows, cols, f = rng.randint(4, 14), rng.randint(4, 14), rng.randint(2, 5)
+        c = mk(rows, cols, f, rng.choice(['cdelt', 'cdrot']), 'file', 'nodal', rng.randint(0, 10 ** 6))
+        c['fname'], c['relative'] = fname, rel
+        cases.append(c)
+    run_cases(ctx, cases, use_driver=False, consumers=True)
+    sr6_cases(ctx, cases, missing=False)
+    ctx.count('file-names', len(cases))
+
+
+def large_cases(ctx):
+    """one deliberately long image per axis (just above 2^16, not a multiple of the factor), implementation vs Spec"""
+    cases = [mk(65536 + 4321, 8, 7, 'cdelt', 'hdu', 'nodal', 81), mk(9, 65536 + 1234, 5, 'cdrot', 'hdu', 'nodal', 82)]
+    if not ctx.quick:
+        cases += [mk(1500, 1100, 13, 'cd', 'file', 'nodal', 83), mk(2 ** 17 + 3, 3, 64, 'cdelt', 'hdu', 'sparse', 84)]
+    run_cases(ctx, cases, use_driver=False, consumers=False)
+    ctx.count('large', len(cases))
+
+
+def debug_slice(ctx):
+    """the corpus again with the root logger and the 'Aegean' logger at DEBUG (handlers silenced): results must be
+    bit-identical to the default-level run"""
+    cases = [mk(*c) for c in CORPUS[:10]]
+    ref = [run_impl(ctx, c, want_file_checks=False) for c in cases]
+    root, aeg = logging.getLogger(), logging.getLogger('Aegean')
+    saved = (root.level, aeg.level, list(root.handlers), logging.root.manager.disable)
+    try:
+        logging.disable(logging.NOTSET)
+        root.handlers = [logging.NullHandler()]
+        root.setLevel(logging.DEBUG)
+        aeg.setLevel(logging.DEBUG)
+        dbg = [run_impl(ctx, c, want_file_checks=False) for c in cases]
+    finally:
+        root.setLevel(saved[0])
+        aeg.setLevel(saved[1])
+        root.handlers = saved[2]
+        logging.disable(saved[3])
+    for c, a, b in zip(cases, ref, dbg):
+        ctx.count('debug-slice')
+        ctx.case(dict(c, logging='DEBUG'))
+        same = a.error == b.error and (a.error is not None or (
+            np.array_equal(a.edata, b.edata, equal_nan=True) and np.array_equal(a.cdata, b.cdata, equal_nan=True)
+            and hdr_view(a.ehdr) == hdr_view(b.ehdr) and hdr_view(a.chdr) == hdr_view(b.chdr)))
+        if not same:
+            ctx.fail('spec', dict(c, logging='DEBUG'), "compress/expand give a different result with logging at DEBUG",
+                     sig('logging-dependence', c))
+
+
+def sparse_all_factors(ctx):
+    """every factor 1..64, an image just large enough for two decimation nodes per axis, pattern 'sparse' (zero nodes
+    next to 3e9 nodes), implementation vs Spec with exact node comparison; a few of them also through the model"""
+    cases = [mk(f + 2 + (f % 2), f + 1 + (f % 3), f, 'cdelt' if f % 2 else 'cd', 'hdu', 'sparse', 7000 + f)
+             for f in range(1, 65)]
+    cases += [mk(2 * f + 1, 2 * f + 3, f, 'cdelt', 'hdu', 'sparse', 7100 + f) for f in (2, 3, 7, 49)]
+    run_cases(ctx, cases, use_driver=False, consumers=False)
+    pick = [c for c in cases if c['f'] in (1, 2, 5, 7, 49, 64)][:7]
+    run_cases(ctx, pick, use_driver=True, consumers=False)
+    ctx.count('sparse-all-factors', len(cases))
+
+
 def histories(ctx):
     """for each factor: two or three original shapes that share ceil(rows/f) and ceil(cols/f) -- hence the same
     compressed shape, factor and (often) residual class -- round-tripped alternately, file and HDUList inputs mixed,
@@ -826,7 +920,7 @@ def nan_witness(ctx):
 # SR6 command line (thorough)
 # ---------------------------------------------------------------------------------------------
 
-def sr6_cases(ctx, cases):
+def sr6_cases(ctx, cases, missing=True):
     from astropy.io import fits
     from AegeanTools import fits_tools
     from AegeanTools.CLI import SR6
@@ -838,6 +932,10 @@ def sr6_cases(ctx, cases):
             rows, cols, f, kind, pattern = (case[k] for k in ('rows', 'cols', 'f', 'kind', 'pattern'))
             img = make_image(rows, cols, f, pattern, case.get('imgseed', 0))
             ipath, cpath, epath = (os.path.join(tmp, f"sr6_{n}_{x}.fits") for x in 'ice')
+            if case.get('fname'):
+                ipath, cpath, epath = (os.path.join(tmp, f"sr6{x}_" + case['fname']) for x in 'ice')
+                if case.get('relative'):
+                    ipath, cpath, epath = (os.path.relpath(p, os.getcwd()) for p in (ipath, cpath, epath))
             make_hdulist(img, kind).writeto(ipath, overwrite=True)
             c = dict(case, via='SR6')
             try:
@@ -867,9 +965,9 @@ def sr6_cases(ctx, cases):
             ctx.count('sr6')
             ctx.case(dict(c, compressed_shape=list(cdata.shape)))
         # missing input file: reported, exit status 1, nothing written
-        missing = os.path.join(tmp, 'does_not_exist.fits')
+        nofile = os.path.join(tmp, 'does_not_exist.fits')
         outp = os.path.join(tmp, 'never.fits')
-        for argv in ([missing, '-f', '3', '-o', outp], [missing, '-x', '-o', outp]):
+        for argv in ([nofile, '-f', '3', '-o', outp], [nofile, '-x', '-o', outp]) if missing else ():
             try:
                 rc = SR6.main(argv)
             except BaseException as e:  # noqa  (SystemExit included)
@@ -941,7 +1039,7 @@ def case_set(ctx):
         else:
             f = max(1, min(64, min(rows, cols) + rng.randint(-2, 2)))   # factor about the size of the image
         cases.append(mk(rows, cols, f, rng.choice(KINDS), 'file' if k % 5 == 0 else 'hdu',
-                        rng.choice(['random', 'nodal', 'nodal', 'affine']), rng.randint(0, 10 ** 6)))
+                        rng.choice(['random', 'nodal', 'nodal', 'affine', 'sparse']), rng.randint(0, 10 ** 6)))
     return cases
 
 
@@ -953,6 +1051,10 @@ def run(ctx):
     for k in range(0, len(cases), 400):
         run_cases(ctx, cases[k:k + 400])
     malformed(ctx)
+    sparse_all_factors(ctx)
+    file_names(ctx)
+    large_cases(ctx)
+    debug_slice(ctx)
     histories(ctx)
     repeated_ops(ctx)
     nan_witness(ctx)
@@ -996,6 +1098,15 @@ def search(ctx):
     warnings.simplefilter('ignore')
     if any(f['kind'] == 'spec' for f in ctx.failures):
         return
+    saved = ctx.driver_ok
+    ctx.driver_ok = False
+    try:
+        sparse_all_factors(ctx)
+        file_names(ctx)
+    finally:
+        ctx.driver_ok = saved
+    if any(f['kind'] == 'spec' for f in ctx.failures):
+        return
     histories(ctx)
     if any(f['kind'] == 'spec' for f in ctx.failures):
         return
@@ -1016,7 +1127,9 @@ def replay(ctx, rec):
     c = rec['case'] or {}
     if c.get('via') == 'SR6':
         if 'rows' in c:
-            sr6_cases(ctx, [mk(c['rows'], c['cols'], c['f'], c['kind'], 'file', c['pattern'], c.get('imgseed', 0))])
+            one = mk(c['rows'], c['cols'], c['f'], c['kind'], 'file', c['pattern'], c.get('imgseed', 0))
+            one.update({k: c[k] for k in ('fname', 'relative') if k in c})
+            sr6_cases(ctx, [one])
         else:
             sr6_cases(ctx, [])
     elif c.get('op') == 'compress-twice':
@@ -1026,8 +1139,9 @@ def replay(ctx, rec):
                      [mk(c['rows'], c['cols'], c['f'], c['kind'], c.get('io', 'hdu'), c.get('pattern', 'random'),
                          c.get('imgseed', 0))])
     elif 'rows' in c and 'f' in c and 'kind' in c:
-        run_cases(ctx, [mk(c['rows'], c['cols'], c['f'], c['kind'], c.get('io', 'hdu'), c.get('pattern', 'random'),
-                           c.get('imgseed', 0))])
+        one = mk(c['rows'], c['cols'], c['f'], c['kind'], c.get('io', 'hdu'), c.get('pattern', 'random'), c.get('imgseed', 0))
+        one.update({k: c[k] for k in ('fname', 'relative') if k in c})
+        run_cases(ctx, [one])
     elif 'nan_at' in c:
         nan_witness(ctx)
     else:
